@@ -64,3 +64,15 @@ contract(_G + "to_geodataframe", props=["C15", "C08"],
          options={"abstract": True, "summaries": [_GEO + "_grid_to_polygon_geodataframe"]},
          raises=[("ValueError", "engine == 'bogus' or (isnone(exclude_antimeridian) and periodic_elements == 'bogus') or "
                                 f"(not isnone(projection) and {_PRJ} and periodic_elements == 'split')", "iff")])
+
+
+# ---- _build_antimeridian_face_indices (C15): exactly the faces with an edge spanning AT LEAST 180 degrees of longitude, increasing ------
+_CROSS = "exists(0, w - 1, lambda j: abs(shells_x[{f}, j + 1] - shells_x[{f}, j]) >= 180)"
+contract(_GEO + "_build_antimeridian_face_indices", props=["C15"],
+         sizes=["n_face", "w"], size_constraints=["2 <= w"],
+         params={"shells_x": "arr(real, n_face, w)", "projection": "None"},
+         returns="arr(int, n_cross)",
+         ensures=["forall(0, len(result), lambda t: 0 <= result[t] and result[t] < n_face and " + _CROSS.format(f="result[t]") + ")",
+                  "forall(0, n_face, lambda f: implies(" + _CROSS.format(f="f") + ", exists(0, len(result), lambda t: result[t] == f)))",
+                  "forall(0, len(result), 0, len(result), lambda t, u: implies(t < u, result[t] < result[u]))"],
+         raises=[("Exception", "False", "only_if")])
